@@ -43,6 +43,9 @@ func Tail(l []string, n int) []string {
 
 // Keep queues a finished session for the comparison with gxdrv_ipam.
 func (rn *Runner) Keep(s *Session) {
+	for _, f := range s.QueryFindings {
+		rn.Violation(f.Sig, f.What, s.Src)
+	}
 	rn.Sessions = append(rn.Sessions, s)
 	if len(rn.Sessions) >= 200 {
 		rn.Flush()
@@ -114,6 +117,14 @@ func (rn *Runner) Note(st *Step) {
 			r.Hit("branch:unassign-event")
 		}
 	}
+	if st.Op.Kind == "conf" || st.Op.Kind == "restart" {
+		for _, p := range st.Op.Conf {
+			if len(p.IPs) == 0 {
+				r.Hit("conf:has-pool-without-ips")
+				break
+			}
+		}
+	}
 	if st.Op.Kind == "conf" && st.Class == "ok" {
 		for _, c := range st.Calls {
 			if c.Verb == "delete" {
@@ -171,4 +182,30 @@ func Prefix(ops []Op, i int, each func(s *Session, st *Step)) *Session {
 		}
 	}
 	return s
+}
+
+// StoreObjectsTouchedByFailure: "a failed allocation never deletes or changes a pre-existing store object" — the objects
+// which existed before the step and are gone or different after it (st must be a failed, not crashed, allocation move).
+func StoreObjectsTouchedByFailure(st *Step, after map[uint32]Rec) []Finding {
+	var fs []Finding
+	if !st.Op.IsAlloc() || st.Class == "ok" || st.Class == "crashed" || st.Class == "hang" || st.Class == "panic" {
+		return nil
+	}
+	for _, ip := range SortedIPs(st.StBefore) {
+		r := st.StBefore[ip]
+		q, ok := after[ip]
+		if ok && q == r {
+			continue
+		}
+		sig := "failed-allocation-changed-store-object"
+		if r.Reserved {
+			sig = "reservation-deleted-by-rollback"
+			if ok {
+				sig = "reservation-changed-by-failed-allocation"
+			}
+		}
+		fs = append(fs, Finding{Sig: sig, IP: ip, What: fmt.Sprintf("%s (%s, plan %s) failed, but the stored object %s (%v) is %s afterwards",
+			st.Op.Kind, st.Class, st.Op.Plan, IPStr(ip), r, map[bool]string{true: fmt.Sprint(q), false: "gone"}[ok])})
+	}
+	return fs
 }
